@@ -153,6 +153,14 @@ def run_case(case):
                 fired = sum(M.RULES.snapshot().values())
                 with M.Guard():
                     got = concat_parts(exec_ref(oc.expr))
+            except NotImplementedError as ex:
+                if "overlapping window size" in str(ex):
+                    # documented refusal of shift/diff/rolling over a partition shorter than the window: the cut fixes the
+                    # source's physical partitions, the uncut plan only escaped it through fused multi-file parquet reads
+                    bump("cut_refused_overlap_window")
+                    continue
+                viol = dict(progcase.exc_info(ex), oracle="cut_runs", cut=[j, kind], node=nk)
+                break
             except Exception as ex:
                 viol = dict(progcase.exc_info(ex), oracle="cut_runs", cut=[j, kind], node=nk)
                 break
@@ -173,8 +181,17 @@ def run_case(case):
             # the cut legitimately changes (it blocks push-downs below the sort): divisions are then not comparable
             # ... and the optimizer may push filters/projections below a sort of the uncut program, which changes the sample too
             sort_after_cut = any("sort" in programs.OPS[st_["op"]].tags for st_ in prog["steps"])
+            fused_read = {"FusedIO", "FusedParquetIO"} & (set(progcase.plan_classes(o.expr)) | set(progcase.plan_classes(oc.expr)))
             if sort_after_cut:
                 bump("divisions_not_comparable_sort_after_cut")
+            elif fused_read:
+                # the tune step merges the files of a column-projected parquet read into fewer partitions; how many depends on
+                # the columns the rest of the plan needs, which a cut changes: only the covered range is comparable
+                cd = _divs(oc.expr)
+                bump("divisions_fused_read_range_only")
+                if (cd[0] is None) != (ref_divs[0] is None) and kind != "legacy" or (cd[0] is not None and ref_divs[0] is not None and (cd[0], cd[-1]) != (ref_divs[0], ref_divs[-1])):
+                    viol = {"oracle": "cut_divisions", "symptom": "divisions-range", "got": repr(cd)[:200], "exp": repr(ref_divs)[:200], "cut": [j, kind], "node": nk}
+                    break
             elif _divs(oc.expr) != ref_divs and kind != "legacy" or (kind == "legacy" and _divs(oc.expr) != ref_divs and oc.known_divisions and ref_divs[0] is not None):
                 viol = {"oracle": "cut_divisions", "symptom": "divisions", "got": repr(_divs(oc.expr))[:200], "exp": repr(ref_divs)[:200], "cut": [j, kind], "node": nk}
                 break
